@@ -91,7 +91,7 @@ func createGetCmafIngesterInfoHdlr(s *Server) func(ctx context.Context, input *i
 		if err != nil {
 			return nil, huma.Error400BadRequest(fmt.Sprintf("Invalid ID: %s", input.Id))
 		}
-		ing, ok := s.cmafMgr.ingesters[uint64(id)]
+		ing, ok := s.cmafMgr.getIngester(uint64(id))
 		if !ok {
 			return nil, huma.Error404NotFound(fmt.Sprintf("CMAF ingest %s not found", input.Id))
 		}
@@ -100,7 +100,7 @@ func createGetCmafIngesterInfoHdlr(s *Server) func(ctx context.Context, input *i
 		resp.Body.DestName = ing.destName
 		resp.Body.URL = ing.url
 		resp.Body.ID = input.Id
-		resp.Body.Report = strings.Join(ing.report, "\n")
+		resp.Body.Report = strings.Join(ing.getReport(), "\n")
 		return resp, nil
 	}
 }
@@ -111,7 +111,7 @@ func createStepCmafIngesterHdlr(s *Server) func(ctx context.Context, input *idIn
 		if err != nil {
 			return nil, huma.Error400BadRequest(fmt.Sprintf("Invalid ID: %s", input.Id))
 		}
-		ci, ok := s.cmafMgr.ingesters[uint64(id)]
+		ci, ok := s.cmafMgr.getIngester(uint64(id))
 		if !ok {
 			return nil, huma.Error404NotFound(fmt.Sprintf("CMAF ingest %s not found", input.Id))
 		}
@@ -130,15 +130,17 @@ func createDeleteCmafIngesterHdlr(s *Server) func(ctx context.Context, input *id
 		if err != nil {
 			return nil, huma.Error400BadRequest(fmt.Sprintf("Invalid ID: %s", input.Id))
 		}
-		ci, ok := s.cmafMgr.ingesters[uint64(id)]
+		ci, ok := s.cmafMgr.getIngester(uint64(id))
 		if !ok {
 			return nil, huma.Error404NotFound(fmt.Sprintf("CMAF ingest %s not found", input.Id))
 		}
-		if ci.state == ingesterStateRunning {
-			ci.mgr.cancels[uint64(id)]()
+		// A session that has been created but not started yet has no cancel function.
+		if cancel, ok := s.cmafMgr.getCancel(uint64(id)); ok {
+			if ci.getState() == ingesterStateRunning {
+				cancel()
+			}
+			cancel()
 		}
-
-		s.cmafMgr.cancels[uint64(id)]()
 		resp := &CmafIngestDeleteResponse{}
 		resp.Body.ID = fmt.Sprintf("Deleted %s!", input.Id)
 		return resp, nil
